@@ -547,10 +547,13 @@ def _pipeline(ctx, plan, value_fn, script, strict, scripted_thetas=None):
             return None
         out.update({'src': src, 'res': res, 'info': info})
         if plan['mode'] == 'B':
-            if any(tr[0].n_cond <= 2 or te[0].n_cond <= 2 or tr[0].n_rdm == 0 or te[0].n_rdm == 0
-                   for tr, te in zip(res[0], res[1])):
+            small = [tr[0].n_cond <= 2 or te[0].n_cond <= 2 or tr[0].n_rdm == 0 or te[0].n_rdm == 0
+                     for tr, te in zip(res[0], res[1])]
+            if all(small):
                 out['too_small'] = True
                 return out
+            # (folds that crossval leaves out -- too few conditions -- stay in the list: the folds after them are judged)
+            out['n_small_folds'] = sum(small)
             models, fitters = _make_models(plan)
             log = []
             used = []
